@@ -384,7 +384,13 @@ func (ds *AnySource) archiveNewDataBlock(block *dataBlock) {
 	// If no segments are allocated, this is the time to set up for saving data.
 	if ab.segments == nil {
 		ab.nSamp = 0
+		// Reserve room for a moderate request at once; a huge one grows as data arrive (a capacity
+		// computed from an absurd request overflows or cannot be allocated, which stopped the server).
+		const maxReserve = 1 << 20
 		cap := ab.requestedSamples + ab.requestedSamples/2
+		if cap < 0 || cap > maxReserve {
+			cap = maxReserve
+		}
 		ab.segments = make([]DataSegment, nchan)
 		for i := 0; i < ds.Nchan(); i++ {
 			ab.segments[i].rawData = make([]RawType, 0, cap)
